@@ -367,12 +367,12 @@ fn cloud(rng: &mut Rng) {
 
 pub fn run(rng: &mut Rng, n: usize) {
     for _ in 0..n {
-        dev_curve(rng);
-        dev_mesh(rng);
+        case("dev.case", "c16.library_call_panics", || dev_curve(rng));
+        case("dev.case", "c16.library_call_panics", || dev_mesh(rng));
         for _ in 0..4 {
-            dev_set(rng);
-            tolmap(rng);
-            cloud(rng);
+            case("dev.case", "c16.library_call_panics", || dev_set(rng));
+            case("dev.case", "c16.library_call_panics", || tolmap(rng));
+            case("dev.case", "c16.library_call_panics", || cloud(rng));
         }
     }
 }
